@@ -1,7 +1,8 @@
 // W15X: C15, third clause - "an exception thrown in one thread of a parallel phase reaches the caller as that
 // exception after all threads have finished". A population of separated cells is handed to one of the three
 // parallel phases that promise this (local_mesh_refiner::refine_meshes, mesh_writer::write with its parallel
-// rebase loop and its two writer sections, and the whole solver::run_iteration that contains both) on a team of
+// rebase loop and its two writer sections, the whole solver::run_iteration that contains both, and the parallel
+// construction of the cells in simulation_initializer) on a team of
 // 1-16 under a drawn schedule, with 1-3 exceptions of drawn types injected at the entry of the k-th call of a phase
 // function, i.e. in whichever member the schedule gives that call to (first, middle, last cell; several at once).
 //   - the caller must receive an exception iff a fault fired, and its dynamic type and text must be those of one of
@@ -13,6 +14,7 @@
 #include "harness/tissue.hpp"
 #include "harness/iofmt.hpp"
 #include "mesh_writer.hpp"
+#include "simulation_initializer.hpp"
 #include "custom_exception.hpp"
 #include <typeinfo>
 #include <unistd.h>
@@ -122,6 +124,22 @@ RunResult run_w15x(const Plan& pl) {
             }
             log.adds(slurp(cp)); log.adds(slurp(fp));
             res.sim_iterations = 1;
+        } else if (scen == 3) {
+            // ---- start-up: simulation_initializer builds the cells of the input file in parallel
+            const double R = 5e-6; std::vector<InCell> in;
+            for (int k = 0; k < n; k++) { InCell c; sim::Rng sr(pl.seed * 17 + k); c.m = gen_shape(pl.geti("c" + std::to_string(k) + "_shape", 0), 1, sr); c.m.scale(R); c.m.translate(V3(4 * R * k, 0, 0)); c.type = 0; in.push_back(c); }
+            std::string dir = g_scratch + "/w15x"; mkdir(dir.c_str(), 0700); std::string vp = dir + "/in.vtk", xp = dir + "/p.xml";
+            spit(vp, write_vtk(in, "%.10g"));
+            XmlSpec xs; xs.mesh_path = vp; xs.out_path = g_scratch + "/out15x"; xs.triangulate = false; xs.lmin = lmin; xs.cut_adh = xs.cut_rep = 0.4 * lmin; xs.dt = 1e-7; xs.sampling = 1e-6; xs.duration = 1e-6; xs.nft = 3; spit(xp, write_xml(xs));
+            uint64_t c0 = sim::stats().phase_calls[sim::PH_INIT_TRIANGULATE];
+            arm(pl);
+            size_t built = 0;
+            Caught got = guarded([&] { simulation_initializer si(xp, false); built = si.get_cell_lst().size(); for (auto& c : si.get_cell_lst()) if (c) c->clear_data(); });
+            uint64_t calls = sim::stats().phase_calls[sim::PH_INIT_TRIANGULATE] - c0;
+            judge(res, got, "simulation_initializer");
+            if (calls != (uint64_t)n) { std::ostringstream d; d << "the initializer returned to its caller after " << calls << " of " << n << " cells had been handed to triangulate_surface"; res.fail("C15", "exception.all_members_finished", d.str()); }
+            if (!got.any && built != (size_t)n) res.fail("C15", "exception.lost", "the initializer returned normally with fewer cells than the input file holds");
+            log.add(built); res.sim_iterations = 1;
         } else {
             // ---- the whole iteration: the caller of run_iteration gets it
             auto S = std::make_unique<sim_solver>(T.params, T.cells, pl.geti("team", 1), true, false);
@@ -148,7 +166,7 @@ Plan gen_w15x(uint64_t seed, const std::string& tier, const std::string& focus) 
     const double R = 5e-6; int n = r.range(1, thorough ? 12 : 8); pl.p["ncells"] = n;
     pl.p["lmin"] = R * r.uni(0.1, 0.3); pl.p["cut_adh"] = pl.p["cut_rep"] = 0.4 * pl.p["lmin"]; pl.p["swap"] = r.coin(0.4); pl.p["jitter"] = 0.05;
     for (int k = 0; k < n; k++) { std::string pre = "c" + std::to_string(k) + "_"; pl.p[pre + "kind"] = 0; pl.p[pre + "shape"] = (int)r.below(3); pl.p[pre + "res"] = 1; pl.p[pre + "r"] = R * r.uni(0.8, 1.2); pl.p[pre + "x"] = 5 * R * k; pl.p[pre + "seed"] = (double)r.below(1000000); }
-    int scen = (int)r.below(3); pl.p["scenario"] = scen;
+    int scen = (int)r.below(4); pl.p["scenario"] = scen;
     pl.p["clock"] = (int)r.below(3); draw_schedule(pl, r, thorough ? 16 : 8);
     static const int types[] = {sim::EX_DIVISION, sim::EX_BPA, sim::EX_MESH_INTEGRITY, sim::EX_MESH_WRITER, sim::EX_INIT_TRI, sim::EX_RUNTIME};
     int nf = r.coin(0.1) ? 0 : (r.coin(0.6) ? 1 : r.range(2, 3));
@@ -156,6 +174,7 @@ Plan gen_w15x(uint64_t seed, const std::string& tier, const std::string& focus) 
         int ph; int k;
         if (scen == 0) { ph = sim::PH_REFINE_MESH; k = r.coin(0.3) ? (r.coin(0.5) ? 1 : n) : r.range(1, n); }
         else if (scen == 1) { double u = r.uni(); if (u < 0.5) { ph = sim::PH_REBASE; k = r.coin(0.3) ? (r.coin(0.5) ? 1 : n) : r.range(1, n); } else { ph = u < 0.75 ? sim::PH_WRITE_CELL_FILE : sim::PH_WRITE_FACE_FILE; k = 1; } }
+        else if (scen == 3) { ph = sim::PH_INIT_TRIANGULATE; k = r.coin(0.3) ? (r.coin(0.5) ? 1 : n) : r.range(1, n); }
         else { double u = r.uni(); if (u < 0.5) { ph = sim::PH_REFINE_MESH; k = r.range(1, n); } else if (u < 0.75) { ph = sim::PH_REBASE; k = r.range(1, n); } else { ph = u < 0.88 ? sim::PH_WRITE_CELL_FILE : sim::PH_WRITE_FACE_FILE; k = 1; } }
         pl.ops.push_back({"fault", {(double)ph, (double)k, (double)types[r.below(6)]}});
     }
